@@ -36,7 +36,9 @@ func (c *Encoder) Encodes(statements []ast.Statement) ([]byte, error) {
 		buf.Write(frame.Encode())
 	}
 	buf.Write(fin())
-	return buf.Bytes(), nil
+	// The buffer goes back to the pool, the caller gets its own bytes
+	// (they would be overwritten by the next Encodes call otherwise)
+	return bytes.Clone(buf.Bytes()), nil
 }
 
 func (c *Encoder) Encode(stmt ast.Statement) ([]byte, error) {
